@@ -25,19 +25,20 @@ Definition euler_generic (q : quat (T:=R)) : Prop :=
   a * a + b * b + c * c + d * d = 1 /\ 1 / 1000000000 <= chi a b c d /\
   clear_angle (t0 a b c d) /\ clear_angle (t1 a b c d) /\ clear_angle (t2 a b c d).
 
-Definition reload_rot (r : rotation (T:=R)) : rotation (T:=R) := (eu2qu ROps (to_euler ROps r), false).
+(* the model's reload of one rotation (Model/C13Map.v), over the reals *)
+Definition reload_rot (r : rotation (T:=R)) : rotation (T:=R) := C13Map.reload_rot ROps r.
 
 Theorem rot_roundtrip_generic (r : rotation (T:=R)) :
-  snd r = false -> euler_generic (fst r) -> rot_same r (reload_rot r).
+  euler_generic (fst r) -> rot_same r (reload_rot r).
 Proof.
-  intros Hi Hg. unfold rot_same, reload_rot, to_euler. simpl. split; [now rewrite Hi|].
+  intros Hg. unfold rot_same, reload_rot, C13Map.reload_rot, to_euler. simpl. split; [reflexivity|].
   unfold euler_generic, qnormalizeR in *. destruct (qnormalize ROps (fst r)) as [[[a b] c] d].
   destruct Hg as (Hu & Hc & G0 & G1 & G2). now apply eu2qu_qu2eu_generic.
 Qed.
 
-(* the improper flag is not stored *)
-Theorem rot_improper_refuted : exists r : rotation (T:=R), snd r = true /\ ~ rot_same r (reload_rot r).
-Proof. exists ((1, 0, 0, 0), true). split; [reflexivity|]. intros [H _]. simpl in H. discriminate. Qed.
+(* the improper flag is stored and set again on the reloaded rotation *)
+Theorem rot_improper_kept (r : rotation (T:=R)) : snd (reload_rot r) = snd r.
+Proof. reflexivity. Qed.
 
 Lemma qu2om_qneg (q : quat (T:=R)) : qu2om ROps (qneg ROps q) = qu2om ROps q.
 Proof. destruct q as [[[a b] c] d]. unfold qu2om, qu2om_single, qneg. cbv zeta. rsimpl.
@@ -49,7 +50,7 @@ Theorem rot_gimbal_pi_refuted :
   exists r : rotation (T:=R), snd r = false /\ qnorm2 ROps (fst r) = 1 /\ ~ rot_same r (reload_rot r).
 Proof.
   destruct qu2eu_gimbal_pi_refuted as [q [Hu Hne]]. exists (q, false). split; [reflexivity|]. split; [exact Hu|].
-  intros [_ H]. unfold reload_rot, to_euler in H. simpl in H.
+  intros [_ H]. unfold reload_rot, C13Map.reload_rot, to_euler in H. simpl in H.
   fold qnormalizeR in H. rewrite (qnormalize_unit_id q Hu) in H. apply Hne.
   rewrite <- qu2om_eu2qu. destruct H as [-> | ->]; [reflexivity|apply qu2om_qneg].
 Qed.
